@@ -267,5 +267,5 @@ def tasks(ctx):
     t = []
     for sh in range(NSHARDS):
         t.append((task_matrix, dict(shard=sh)))
-        t.append((task_fuzz, dict(shard=sh, n=ctx.pick(150, 4000))))
+        t.append((task_fuzz, dict(shard=sh, n=ctx.pick(800, 4000))))
     return t
